@@ -1122,9 +1122,14 @@ class Program:
         for f in self.fn_list:
             f.program = self
         self.inlined = []
+        self.renamed = {}
         bp = os.path.join(os.path.dirname(os.path.dirname(os.path.abspath(__file__))), 'baseline_fns.json')
         if os.path.exists(bp):
-            self.inlined = inline_new_helpers(self, set(json.load(open(bp))))
+            base = json.load(open(bp))
+            if isinstance(base, list):
+                base = {k: None for k in base}
+            self.renamed = apply_renames(self, base)
+            self.inlined = inline_new_helpers(self, set(base))
 
     def fn(self, key):
         f = self.fns.get(key)
@@ -1152,6 +1157,21 @@ class Program:
         for g in self.fn_list:
             if g.kind == 'closure' and (g.parent == f.key or (transitive and g.root == f.key and g.key != f.key)):
                 out.append(g)
+        # closures whose aggregate is built in these bodies although they were written in an inlined helper
+        seen = {g.key for g in out} | {f.key}
+        work = [f] + list(out)
+        while work:
+            h = work.pop()
+            for (_, _, ck) in h.closures_created():
+                g = self.fns.get(ck)
+                if g is not None and g.key not in seen:
+                    seen.add(g.key)
+                    out.append(g)
+                    if transitive:
+                        work.append(g)
+                        for g2 in self.fn_list:
+                            if g2.kind == 'closure' and g2.root == g.root and g2.key.startswith(g.key + '::') and g2.key not in seen:
+                                seen.add(g2.key); out.append(g2); work.append(g2)
         return out
 
     def impls_of_trait_method(self, trait, method):
@@ -1420,6 +1440,74 @@ def _retarget_term(t, boff):
     return t
 
 
+def fn_signature(f):
+    """[return type, argument types...] of a body"""
+    return [f.locals[i]['ty'] for i in range(0, f.argc + 1)]
+
+
+def apply_renames(P, base):
+    """A function of the pinned tree that no longer exists while exactly one NEW function with the same parent path and the
+    same signature appeared is treated as renamed: the new function answers to the old key (rules anchor on pinned names).
+    Returns {new key: old key}."""
+    present = {f.key for f in P.fn_list if f.kind not in ('closure', 'promoted')}
+    missing = [k for k in base if k not in present and base[k] is not None]
+    new = [f for f in P.fn_list if f.kind not in ('closure', 'promoted') and f.key not in base]
+    if not missing or not new:
+        return {}
+    def parent(k):
+        return k.rsplit('::', 1)[0]
+    cand = {}
+    for k in missing:
+        cs = [f for f in new if parent(f.key) == parent(k) and fn_signature(f) == base[k]]
+        if len(cs) == 1:
+            cand[k] = cs[0]
+    # one-to-one only
+    used = defaultdict(list)
+    for k, f in cand.items():
+        used[f.key].append(k)
+    ren = {f.key: k for k, f in cand.items() if len(used[f.key]) == 1}
+    if not ren:
+        return {}
+    def map_key(key):
+        for n, k in ren.items():
+            if key == n:
+                return k
+            if key.startswith(n + '::'):
+                return k + key[len(n):]
+        return key
+    def map_path(pth):
+        if not pth:
+            return pth
+        sk = strip_generics(pth)
+        mk = map_key(sk)
+        return mk if mk != sk else pth
+    for f in P.fn_list:
+        nk = map_key(f.key)
+        if nk != f.key:
+            P.fns.pop(f.key, None)
+            f.key = nk
+            f.path = nk
+            P.fns.setdefault(nk, f)
+        if f.parent:
+            f.parent = map_key(f.parent)
+        if f.root:
+            f.root = map_key(f.root)
+        def rewrite(x):
+            if isinstance(x, list):
+                for y in x:
+                    rewrite(y)
+            elif isinstance(x, dict):
+                for fld in ('res', 'callee', 'def', 'fn'):
+                    v = x.get(fld)
+                    if isinstance(v, str):
+                        x[fld] = map_path(v)
+                for v in x.values():
+                    if isinstance(v, (list, dict)):
+                        rewrite(v)
+        rewrite(f.blocks)
+    return ren
+
+
 FN_TRAIT_CALLS = ('std::ops::FnOnce::call_once', 'std::ops::FnMut::call_mut', 'std::ops::Fn::call')
 
 
@@ -1517,6 +1605,32 @@ def inline_new_helpers(P, baseline, max_depth=4, max_blocks=120):
                 break
             if not _devirtualize(P, f) and not sites:
                 break
+    # a private helper whose every use was inlined is analysed in its callers' context only
+    inl = {c for _, c in done}
+    if inl:
+        still = set()
+        def refs(x):
+            if isinstance(x, list):
+                for y in x:
+                    refs(y)
+            elif isinstance(x, dict):
+                for fld in ('res', 'callee', 'fn'):
+                    v = x.get(fld)
+                    if isinstance(v, str):
+                        still.add(strip_generics(v))
+                for v in x.values():
+                    if isinstance(v, (list, dict)):
+                        refs(v)
+        for f in P.fn_list:
+            if f.key not in inl:
+                refs(f.blocks)
+        # references from other inlined helpers only count if those stay
+        gone = {k for k in inl if k not in still and P.fns[k].vis != 'pub' and P.fns[k].kind != 'closure'}
+        if gone:
+            P.fn_list = [f for f in P.fn_list if f.key not in gone]
+            for k in gone:
+                P.fns.pop(k, None)
+            P.absorbed = sorted(gone)
     P._cg = None
     P._callers = None
     return done
